@@ -35,6 +35,8 @@ CASE_CPU_LIMIT = int(os.environ.get('VERIF_CASE_CPU_LIMIT', '600'))  # CPU secon
 
 def bootstrap():
     """Put the repository working tree (and optional vendored deps) first on sys.path."""
+    import warnings
+    warnings.filterwarnings('ignore', module='graphviz')   # the graphviz package warns about labels ending in a backslash
     if os.path.isdir(DEPS) and DEPS not in sys.path:
         sys.path.insert(1, DEPS)
     if REPO not in sys.path:
